@@ -19,6 +19,84 @@ use tokio::sync::oneshot;
 
 static NEXT_NS: AtomicU64 = AtomicU64::new(1);
 
+/// Watchdog against runaway reactions of the code under test (a task that is always ready never
+/// lets the paused runtime go idle: the step does not end and its output queues grow without bound).
+/// Every thread publishes since when it has been inside one `block_on`; a monitor thread ends the
+/// process with a machinery error (exit 2, never a verdict) if one step exceeds the wall bound or
+/// the process outgrows the memory bound, instead of letting the kernel kill it.
+pub mod watchdog {
+    use std::sync::atomic::{AtomicU64, Ordering};
+    use std::sync::{Arc, Mutex, Once};
+    use std::time::Instant;
+
+    const STEP_WALL_BOUND_S: u64 = 900;
+
+    static START: Once = Once::new();
+    static SLOTS: Mutex<Vec<Arc<AtomicU64>>> = Mutex::new(Vec::new());
+    static mut T0: Option<Instant> = None;
+
+    thread_local! {
+        static SLOT: Arc<AtomicU64> = {
+            let a = Arc::new(AtomicU64::new(0));
+            SLOTS.lock().unwrap().push(a.clone());
+            a
+        };
+    }
+
+    fn now_ms() -> u64 {
+        #[allow(static_mut_refs)]
+        unsafe { T0.map(|t| t.elapsed().as_millis() as u64 + 1).unwrap_or(1) }
+    }
+
+    /// 40 GB, or HSV_RSS_CAP_MB, and never more than 85 % of the cgroup's memory limit.
+    fn rss_bound_kb() -> u64 {
+        let mut b: u64 = std::env::var("HSV_RSS_CAP_MB").ok().and_then(|v| v.parse::<u64>().ok()).map(|m| m * 1024).unwrap_or(40 * 1024 * 1024);
+        for f in ["/sys/fs/cgroup/memory.max", "/sys/fs/cgroup/memory/memory.limit_in_bytes"] {
+            if let Some(limit) = std::fs::read_to_string(f).ok().and_then(|s| s.trim().parse::<u64>().ok()) {
+                if limit > 0 && limit < (1u64 << 50) {
+                    b = b.min(limit / 1024 * 85 / 100);
+                }
+            }
+        }
+        b
+    }
+
+    fn rss_kb() -> u64 {
+        std::fs::read_to_string("/proc/self/statm").ok().and_then(|s| s.split_whitespace().nth(1).and_then(|x| x.parse::<u64>().ok())).map(|pages| pages * 4).unwrap_or(0)
+    }
+
+    pub fn install() {
+        START.call_once(|| {
+            unsafe {
+                T0 = Some(Instant::now());
+            }
+            let rss_bound = rss_bound_kb();
+            std::thread::spawn(move || loop {
+                std::thread::sleep(std::time::Duration::from_millis(250));
+                let now = now_ms();
+                let stuck = SLOTS.lock().unwrap().iter().any(|s| {
+                    let since = s.load(Ordering::Relaxed);
+                    since != 0 && now.saturating_sub(since) > STEP_WALL_BOUND_S * 1000
+                });
+                let rss = rss_kb();
+                if stuck || rss > rss_bound {
+                    crate::util::machinery_error(&format!(
+                        "runaway reaction of the code under test: {} - a real node did not become quiescent after one event (an always-ready task / unbounded output). The run is abandoned; this is not a verdict",
+                        if stuck { format!("one step has been running for more than {} s", STEP_WALL_BOUND_S) } else { format!("the process grew to {} MB", rss / 1024) }
+                    ));
+                }
+            });
+        });
+    }
+
+    pub fn enter() {
+        SLOT.with(|s| s.store(now_ms(), Ordering::Relaxed));
+    }
+    pub fn leave() {
+        SLOT.with(|s| s.store(0, Ordering::Relaxed));
+    }
+}
+
 /// Process-wide record of panics (namespace, message). Installed once.
 pub mod panics {
     use std::sync::Mutex;
@@ -79,6 +157,7 @@ pub struct Rt {
 impl Rt {
     pub fn new() -> Self {
         panics::install();
+        watchdog::install();
         let seed = crate::util::seed();
         let rt = tokio::runtime::Builder::new_current_thread()
             .enable_time()
@@ -92,7 +171,10 @@ impl Rt {
 
     pub fn block_on<F: std::future::Future>(&self, f: F) -> F::Output {
         simnet::enter(self.ns);
-        self.rt.block_on(f)
+        watchdog::enter();
+        let r = self.rt.block_on(f);
+        watchdog::leave();
+        r
     }
 
     /// Run until no task is runnable (the 1 ms sleep completes only when the runtime is idle,
